@@ -378,4 +378,12 @@ theorem isEmpty_eq {t : Trie α V} {M : List (List α × V)} (h : Inv t M) :
       obtain ⟨e, he, hh⟩ := (child_iff_key h p.1).mp this
       rw [hall e he] at hh; simp at hh
 
+theorem specRun_append_add (M : List (List α × V)) (ops : List (Op α V)) (k : List α) (v : V) :
+    specRun M (ops ++ [.add k v]) = specAdd (specRun M ops) k v := by
+  induction ops generalizing M with
+  | nil => rfl
+  | cons op ops ih =>
+    show specRun (specStep M op) (ops ++ [.add k v]) = specAdd (specRun (specStep M op) ops) k v
+    exact ih _
+
 end Occa.Trie
